@@ -44,6 +44,20 @@ impl EOp {
     }
 }
 
+impl EOp {
+    pub fn decode(s: &str) -> Option<EOp> {
+        let v: Vec<u64> = s.split_whitespace().map(|x| x.parse().ok()).collect::<Option<_>>()?;
+        let o = |h: u64, x: u64| if h == 0 { None } else { Some(x as u32) };
+        Some(match v.as_slice() {
+            [0, a, b, vol, tr, hp, p] => EOp::Place { a: *a as usize, bid: *b == 1, vol: *vol as u32, trader: *tr as u32, price: o(*hp, *p) },
+            [1, a, id] => EOp::Cancel(*a as usize, *id as usize),
+            [2, a, id, hp, p, hv, vv] => EOp::Modify(*a as usize, *id as usize, o(*hp, *p), o(*hv, *vv)),
+            [3] => EOp::Step, [4] => EOp::Enable, [5] => EOp::Disable,
+            _ => return None,
+        })
+    }
+}
+
 fn push_l2<const L: usize>(s: &mut String, d: &Level2Data<L>) {
     let _ = write!(s, " {} {} {} {}", d.bid_price, d.ask_price, d.bid_vol, d.ask_vol);
     for (v, c) in d.bid_price_levels.iter() { let _ = write!(s, " {} {}", v, c); }
